@@ -208,7 +208,8 @@ LoadStatus DepsLog::Load(const string& path, State* state, string* err) {
     }
 
     if (is_deps) {
-      if ((size % 4) != 0) {
+      // A deps record holds at least the output id and the mtime (3 words).
+      if ((size % 4) != 0 || size < 12) {
         read_failed = true;
         break;
       }
@@ -220,9 +221,14 @@ LoadStatus DepsLog::Load(const string& path, State* state, string* err) {
       deps_data += 3;
       int deps_count = (size / 4) - 3;
 
+      // The output and all dependencies must be ids of already recorded paths.
+      if (out_id < 0 || out_id >= (int)nodes_.size()) {
+        read_failed = true;
+        break;
+      }
       for (int i = 0; i < deps_count; ++i) {
         int node_id = deps_data[i];
-        if (node_id >= (int)nodes_.size() || !nodes_[node_id]) {
+        if (node_id < 0 || node_id >= (int)nodes_.size() || !nodes_[node_id]) {
           read_failed = true;
           break;
         }
@@ -246,8 +252,12 @@ LoadStatus DepsLog::Load(const string& path, State* state, string* err) {
       }
       // There can be up to 3 bytes of padding.
       if (buf[path_size - 1] == '\0') --path_size;
-      if (buf[path_size - 1] == '\0') --path_size;
-      if (buf[path_size - 1] == '\0') --path_size;
+      if (path_size > 0 && buf[path_size - 1] == '\0') --path_size;
+      if (path_size > 0 && buf[path_size - 1] == '\0') --path_size;
+      if (path_size <= 0) {
+        read_failed = true;
+        break;
+      }
       StringPiece subpath(buf, path_size);
       // It is not necessary to pass in a correct slash_bits here. It will
       // either be a Node that's in the manifest (in which case it will already
